@@ -492,6 +492,40 @@ func (c *SpecCtx) binary(e *ast.BinaryExpr) Value {
 		default:
 			return Mul(a, b)
 		}
+	case token.SHL, token.SHR:
+		if x.sort.K == KBV || y.sort.K == KBV {
+			a, b := c.unify(x, y, true) // widened like + and *: the result is the mathematical one
+			if e.Op == token.SHL {
+				return BVShl(a, b)
+			}
+			return BVLshr(a, b)
+		}
+		if x.sort.K == KInt && y.sort.K == KInt && y.IsConst() && y.val.Sign() >= 0 && y.val.BitLen() < 16 {
+			k := IntC(pow2(int(y.val.Int64())))
+			if e.Op == token.SHL {
+				return Mul(x, k)
+			}
+			return Div(x, k)
+		}
+		c.fail("shift with these operands in spec: %s", exprStr(e))
+	case token.AND, token.OR, token.XOR, token.AND_NOT:
+		if x.sort.K == KBV || y.sort.K == KBV {
+			a, b := c.unify(x, y, false)
+			switch e.Op {
+			case token.AND:
+				return BVAnd(a, b)
+			case token.OR:
+				return BVOr(a, b)
+			case token.XOR:
+				return BVXor(a, b)
+			default:
+				return BVAnd(a, BVNot(b))
+			}
+		}
+		if x.sort.K == KInt && y.sort.K == KInt && e.Op != token.AND_NOT {
+			return c.ex.binop(e.Op, x, y, u64t, "spec")
+		}
+		c.fail("bit operator %v on %s operands in spec", e.Op, x.sort)
 	case token.QUO, token.REM:
 		if x.sort.K != KInt || y.sort.K != KInt {
 			c.fail("div/mod only on Int in spec: %s", exprStr(e))
